@@ -432,7 +432,7 @@ func TestVerifC18Engine(t *testing.T) {
 			}
 			c.searchCheck("index in "+string(c.cfg.Prec), ctx.N(6, 10))
 			restarted := false
-			if r.Chance(0.3) {
+			if r.Chance(0.5) {
 				cs.Op("Close + Open")
 				if err := c.e.Close(); err != nil {
 					cs.Fail("Close: %v", err)
@@ -446,6 +446,25 @@ func TestVerifC18Engine(t *testing.T) {
 				c.readAll("after restart", c.stored)
 				c.searchCheck("after restart, index in "+string(c.cfg.Prec), 3)
 				restarted = true
+			}
+			// one more insert (a stored vector again, so it lies inside the trained range): the
+			// index grows its tables; what was stored before must keep its values and distances
+			if !direct || prec != distance.Int8 {
+				src := c.ids[r.Intn(len(c.ids))]
+				late := "late"
+				// the value the index holds for src in float32 terms (for a cosine index: the
+				// unit-length vector), so that it lies inside the trained int8 range
+				v := append([]float32(nil), c.stored[src]...)
+				cs.Op("VAdd(%s) = copy of %s (restarted=%v)", late, src, restarted)
+				if err := c.e.VAdd(c.name, late, append([]float32(nil), v...), nil); err != nil {
+					cs.Fail("VAdd(late): %v", err)
+				}
+				c.ids = append(c.ids, late)
+				c.raw[late] = v
+				c.stored[late] = c.stored[src]
+				c.readAll("after a late insert", c.stored)
+				c.searchCheck("after a late insert, index in "+string(c.cfg.Prec), 4)
+				ctx.Count("engine.late_insert_cases", 1)
 			}
 			ctx.Eval(1)
 			ctx.Distinct(fmt.Sprintf("%s/%s/%d/%v/%v/%v", target, class, dim, direct, useBatch, restarted))
